@@ -408,6 +408,9 @@ class ExtMixin(object):
 
     def x_hasattr(self, args, kwargs, node, env):
         if not (isinstance(args[1], Const) and isinstance(args[1].v, str)):
+            if isinstance(args[0], Const) and isinstance(args[0].v, str) and isinstance(args[1], (Opaque, InstV, FuncV, DerivV, PyObjV, Num)):
+                # hasattr('name', obj): the attribute name is an object, not a string - Python raises TypeError
+                raise RaiseSignal(ExcV(ExtV("builtins.TypeError"), [Const("hasattr(): attribute name must be string")]), node)
             self.err(node, "hasattr with non-constant name")
         r = self.hasattr(args[0], args[1].v)
         return Const(r) if isinstance(r, bool) else r
@@ -849,6 +852,9 @@ class ExtMixin(object):
             pyargs = [a.v if isinstance(a, Const) else int(a.const()) for a in args]
             try:
                 r = getattr(base.v, name)(*pyargs)
+            except (TypeError, ValueError, IndexError) as e:
+                # the concrete evaluation is Python's own: so is its refusal
+                raise RaiseSignal(ExcV(ExtV("builtins." + type(e).__name__), [Const(str(e))]), node)
             except Exception as e:
                 self.err(node, "str.%s failed: %s" % (name, e))
             if isinstance(r, str):
